@@ -4,6 +4,8 @@
   at quiescence) is not yet a theorem and is decided by the implementation-side monitor on every run.
 -/
 import DtnVerif.Lemmas.TcpclSys
+import DtnVerif.Lemmas.TcpclKInv
+import DtnVerif.Lemmas.TcpclWake
 namespace DtnVerif
 namespace Tcpcl
 
@@ -157,6 +159,41 @@ theorem C09_closed_is_final (e : Ep) (ev : Ev) (hc : e.closed = true) :
   unfold step
   cases ev <;> simp only [hc, if_true] <;> (try rfl)
   · rename_i t; unfold popRx; split <;> rfl
+
+/-- **No transfer is silently dropped once its final segment is out**: at every point of every
+    execution (termination requested or not, any peer), each transfer whose END segment the endpoint has
+    emitted is still awaiting its final acknowledgement, or has been reported `success`, or was refused
+    by the peer — it never just disappears from the bookkeeping. -/
+theorem C09_sent_accounted (cfg : Cfg) (evs : List Ev) :
+    ∀ f t x d, Msg.xferSegment f t x d ∈ (runEp { cfg := cfg } evs).emitted → hasEnd f = true →
+      t ∈ (runEp { cfg := cfg } evs).txPendAck ∨ t ∈ (runEp { cfg := cfg } evs).successLog
+        ∨ Refused t (runEp { cfg := cfg } evs).processed := by
+  intro f t x d hm he
+  exact kInv_run evs _ (kInv_init cfg) _ hm he
+
+/-- **Termination cannot strand a transfer in progress**: requesting termination keeps the wake-up
+    invariant — a transfer being segmented still has an idle source pending or octets to pump, so its
+    remaining segments go out (`processQueue` continues an active transfer before it looks at the
+    terminating flag). -/
+theorem C09_terminate_keeps_progress (e : Ep) (r : Nat) (hi : WakeInv e) :
+    WakeInv (step e (.terminate r)).1 ∧ (step e (.terminate r)).1.txTmp = e.txTmp := by
+  constructor
+  · unfold step
+    simp only []
+    split
+    · exact hi
+    · exact wake_sendSessTerm e r false hi
+  · unfold step
+    simp only []
+    split
+    · rfl
+    · unfold sendSessTerm
+      split
+      · rfl
+      · split
+        · rfl
+        · simp only [flushPendStart, sendMessage, kaReset, idleReset, setState]
+          split <;> rfl
 
 end Tcpcl
 end DtnVerif
